@@ -1453,6 +1453,28 @@ class Engine:
     def memcpy(self, fr, ins, st, dst, src, n):
         n = z3.simplify(n)
         where = self.where(fr, ins)
+        if isinstance(src, GPtr) and not isinstance(dst, GPtr) and z3.is_bv_value(n):
+            # copy from a merged pointer into a record: cell-wise ite over the source cases (all sources must be records with matching cells)
+            nb = n.as_long()
+            cases = [(g, q) for g, q in src.cases if q.obj is not None]
+            for g, q in src.cases:
+                if q.obj is None:
+                    self.add_obl('null-deref', st, g, 'memcpy from a null pointer', where)
+            od = st.mem.o.get(dst.obj)
+            if isinstance(od, RecObj) and cases and all(isinstance(st.mem.o[q.obj], RecObj) for g, q in cases):
+                keys = None
+                for g, q in cases:
+                    ks = set((k - q.off, w) for k, (_, w) in st.mem.o[q.obj].cells.items() if q.off <= k < q.off + nb)
+                    keys = ks if keys is None else (keys & ks)
+                for k in [k for k, (_, w) in od.cells.items() if dst.off <= k < dst.off + nb]:
+                    del od.cells[k]
+                for rel, w in sorted(keys):
+                    v = None
+                    for g, q in cases:
+                        c = st.mem.o[q.obj].cells[q.off + rel][0]
+                        v = c if v is None else ite(g, c, v)
+                    od.cells[dst.off + rel] = (v, w)
+                return
         if isinstance(dst, GPtr) or isinstance(src, GPtr):
             raise Unsupported('memcpy through guarded pointer')
         if dst.obj is None or src.obj is None:
